@@ -160,6 +160,7 @@ func (p *peer) handleStateTransition(i int, t stateTransition) {
 			dominant := localID > remoteID ||
 				(localID == remoteID) && (p.config.LocalAS > p.config.RemoteAS)
 			if dominant && i == out {
+				verifPoint("collision.select", p)
 				// attempt to disable other FSM
 				select {
 				case <-p.closeCh:
